@@ -30,6 +30,11 @@ T2 (model vs code, per (root client path, client path)):
         harness from the model's OS path)
   jp/esc/unesc  the dromedary functions on their own
   xu    _expand_userdirs;  jail  _pre_open_hook
+  corpus/C31/*.json (pinned past failures) run first, through the stack and every verb class;
+  a DIRECTED stream composes [raw non-ASCII segment + cancelling '..'] with every encoded
+  traversal we generate (prefix / suffix / infix, all configurations; traced read for all, every
+  verb class for a sample); paths the implementation accepts although the model rejects them
+  are re-run under the two-worlds oracle;
   client paths: all strings of <= N tokens over
   {/ . .. %2F %2E %2e%2e ~ ~user a é %00} (exhaustive), a random stream of
   longer strings over a wider alphabet, and ~10 % non-UTF-8 byte strings
@@ -65,6 +70,8 @@ Mutants this was built against (scratch worktrees; all semantic ones caught):
   M6 _pre_open_hook accepts on PathNotChild (swapped branches)     -> oracle: file:// URL outside the jail
      opened during a request + T2
   M7 setup_jail installs no jail                                   -> oracle: outside control directory opened
+  S1 (seeded) VfsRequest falls back to unescape-last when unescape() refuses raw non-ASCII
+     -> oracle: 'é/../..%2Fcanary' reads / writes outside (directed stream + corpus)
   H1 slicing rewritten with str.removeprefix (harmless)            -> clean (same result as the unchanged tree)
   with the proposed fix applied (unescape first) the vfs-* families disappear and T2 selects model variant fx.
 """
@@ -346,6 +353,63 @@ def gen_random(rng, count, lo, hi):
     return out
 
 
+NONASCII = ["\u00e9", "\u00fc\u65e5"]
+
+
+def encoded_traversals(extra):
+    """every client path we generate that hides a separator or a dot-dot behind percent-encoding"""
+    base = [b"..%2Fcanary", b"%2E%2E%2Fcanary", b"%2e%2e%2fcanary", b"..%2F", b"%2F..", b"..%2Ff", b"..%2Fa/f",
+            b"a/..%2F..%2Fcanary", b"a%2F..%2F..%2Fcanary", b"a/a/..%2F..%2F..%2Fcanary", b"..%2Fnew-file",
+            b"..%2Fnew-dir/x", b"~/..%2F..%2F..%2Fcanary", b"%%32E%%32E/canary", b"%%32E%%32E%2Fcanary",
+            b"..%2Fevil/f", b"..%2Froot2/h/f", b"..%2F..%2F", b".%2E%2Fcanary", b"%2E.%2Fcanary", b"..%2f%2E%2E%2f"]
+    out = list(base)
+    for c in extra:
+        low = c.lower()
+        if b"%2f" in low and (b".." in c or b"%2e" in low) and c not in out:
+            out.append(c)
+            if not c.endswith((b"/", b"%2F", b"%2f")):
+                out.append(c + b"%2Fcanary")
+            else:
+                out.append(c + b"canary")
+    return out
+
+
+def gen_directed(travs):
+    """[raw non-ASCII segment + cancelling '..'] composed with every encoded traversal, in prefix, suffix
+    and infix position (longer than the exhaustive token bound).  The non-ASCII segment is cancelled
+    because the local transport refuses non-ASCII relpaths; what is left is the encoded traversal."""
+    out, seen = [], set()
+
+    def add(b):
+        if b not in seen:
+            seen.add(b)
+            out.append(b)
+    for t in travs:
+        for na in NONASCII:
+            n = na.encode("utf-8")
+            add(n + b"/../" + t)                 # prefix
+            add(b"/" + n + b"/../" + t)          # prefix, absolute form
+            add(t + b"/" + n + b"/..")           # suffix
+            add(b"a/" + n + b"/../../" + t)      # below an existing directory
+            if b"/" in t:
+                h, r = t.split(b"/", 1)
+                add(h + b"/" + n + b"/../" + r)  # infix
+            if b"%2F" in t:
+                h, r = t.split(b"%2F", 1)
+                add(h + b"%2F" + r + b"/" + n + b"/../")
+    return out
+
+
+def load_corpus():
+    import glob
+    import json
+    out = []
+    for f in sorted(glob.glob(os.path.join(env.VERIF, "corpus", "C31", "*.json"))):
+        for c in json.load(open(f)).get("cases", []):
+            out.append(bytes.fromhex(c["cp"]))
+    return out
+
+
 def gen_malformed(rng, count):
     out = []
     for _ in range(count):
@@ -435,12 +499,17 @@ def t2_paths(ctx, s, cps, fx, deep=True):
                               "directory: %r" % (cp, s.rcp, rv, bytes.fromhex(out[5:])[:60]),
                               family=_family("vfs", cp, rv))
     replies = ctx.model(lines)
+    suspects = []       # the implementation accepted a path the model rejects: re-run under the canary oracle
     for c, l, i, m in zip(cases, lines, outs, replies):
         if c is None:
             continue
         ctx.traces += 1
         if i != m:
             ctx.mismatch(c, i, m, line=l)
+            if c.get("op") in ("tr", "vfs") and i.startswith("ok:") and m.startswith("E:"):
+                cpb = bytes.fromhex(c["cp"])
+                if cpb not in suspects:
+                    suspects.append(cpb)
     for c, idx, bk, out in post:
         ctx.traces += 1
         m = replies[idx]
@@ -479,6 +548,7 @@ def t2_paths(ctx, s, cps, fx, deep=True):
         if exp != out:
             ctx.mismatch(c, out, exp, line=lines[idx])
         ctx.count("read:" + out.split(":")[0])
+    return suspects
 
 
 def _family(kind, cp, translated=None):
@@ -876,8 +946,19 @@ def run(ctx, n_exh=None, n_deep=None, n_verbs=None):
     tm = ctx.extra.setdefault("phase_s", {})
     t0 = time.time()
     only_shallow = [c for c in shallow if c not in deep_set]
+    corpus = load_corpus()
+    directed = gen_directed(encoded_traversals(SEEDS + sorted(deep_set)))
+    ctx.extra["domain"].update(corpus=len(corpus), directed=len(directed))
+    suspects = {k: [] for k in CONFIGS}
+    for k in CONFIGS:
+        # corpus first: pinned past failures, through the stack and through every verb class
+        for cp in prefixed(k[0], corpus):
+            verbs_case(ctx, sa[k], sb[k], cp)
+        suspects[k] += t2_paths(ctx, sa[k], prefixed(k[0], corpus), fx)
     for k in CONFIGS:
         s, r = sa[k], k[0]
+        # directed stream: every one through the translate functions and a traced read (canary oracle) ...
+        suspects[k] += t2_paths(ctx, s, prefixed(r, directed), fx)
         t2_paths(ctx, s, prefixed(r, SEEDS), fx)
         # all strings of <= n_exh tokens below the root client path (translate functions only) ...
         if k[1] != "plain":      # the translate functions do not depend on the backing stack
@@ -897,6 +978,18 @@ def run(ctx, n_exh=None, n_deep=None, n_verbs=None):
     t2_userdirs(ctx, list(sa.values()), [c for c in shallow if c.startswith(b"~")][: ctx.pick(1500, 20000)]
                 + [c for c in rnd if c.startswith(b"~")] + [b"a/~", b"", b"~", b"~/", b"~user", b"~user/..", b"~/../.."])
     tm["functions"] = round(time.time() - t0, 1)
+    t0 = time.time()
+    for i, k in enumerate(CONFIGS):
+        # ... a sample of the directed stream, and every path the implementation accepted although the
+        # model rejects it, through every verb class in two worlds
+        pre = b"/" + k[0].strip("/").encode() + b"/" if k[0].strip("/") else b""
+        extra = rng.sample(directed, min(len(directed), ctx.pick(25, 400)))
+        for cp in prefixed(k[0], extra):
+            verbs_case(ctx, sa[k], sb[k], cp)
+        for cp in suspects[k][: ctx.pick(25, 300)]:
+            ctx.count("suspect:model-rejects-impl-accepts")
+            verbs_case(ctx, sa[k], sb[k], cp)
+    tm["directed-verbs"] = round(time.time() - t0, 1)
     t0 = time.time()
     for i, k in enumerate(CONFIGS):
         # every verb class: the whole <= n_verbs-token set on the first configuration, a sample on the others
